@@ -1,7 +1,7 @@
 import argparse, importlib, json, os, subprocess, sys, time
 sys.path.insert(0, os.path.dirname(os.path.abspath(__file__)))
 from pathlib import Path
-from lkv.core import run_check, quiet_lenskit, audit, LeanError, ROOT, LEAN_DIR
+from lkv.core import run_check, quiet_lenskit, audit, LeanError, ROOT, LEAN_DIR, OUT
 
 GENERATED_FOR = {"C11", "C12"}        # properties whose theorems mention the generated chunking model
 
@@ -42,7 +42,7 @@ def search_chunking(pid, why):
                 if any(x != 1 for x in covered): failing = (n, "some row is processed zero or several times"); break
         except Exception as e:
             failing = (n, f"WorkChunks.create raised {type(e).__name__}"); break
-    rp = ROOT / "replays"; rp.mkdir(exist_ok=True, parents=True)
+    rp = OUT / "replays"; rp.mkdir(exist_ok=True, parents=True)
     path = rp / f"{pid}-obligation.json"
     doc = {"property": pid, "obligation": ["LK.Gen.Chunking.C11_Chunking_chunk_size_pos", "LK.Gen.Chunking.C11_Chunking_row_in_unique_chunk"], "reason": why,
            "verdict": "violation" if failing else "no-failing-input-found"}
